@@ -56,6 +56,21 @@ func runC14(c *core.Ctx) {
 		n = r.Range(0, 30)
 	}
 	alpha := []string{"a", "A", "b", "B", "c", "dd", "", "e", "E", "zz"}[:r.Range(1, 10)]
+	if r.Chance(1, 2) {
+		// large universes: many distinct values / keys, with case-fold collisions
+		u := r.Range(11, 64)
+		alpha = alpha[:0:0]
+		for i := 0; i < u; i++ {
+			if i%3 == 2 {
+				alpha = append(alpha, fmt.Sprintf("K%d", i-1))
+			} else {
+				alpha = append(alpha, fmt.Sprintf("k%d", i))
+			}
+		}
+		if n < 100 && r.Bool() {
+			n = r.Range(u, 4*u)
+		}
+	}
 	s := make([]string, n)
 	for i := range s {
 		s[i] = alpha[r.Intn(len(alpha))]
